@@ -32,6 +32,8 @@ SUPPLEMENT = (
 )
 # doc-flagged or supplement callees that are accepted without a per-site argument (reason given once, printed in the evidence)
 BENIGN = {
+    "<core::iter::adapters::enumerate::Enumerate<I> as core::iter::traits::iterator::Iterator>::next": "documented to panic only if the element index overflows usize (2^64 elements)",
+    "core::iter::traits::iterator::Iterator::enumerate": "constructing the adapter never panics",
     "std::io::stdio::_print": "println!/print! panic only when stdout is closed (broken pipe); outside the property's input quantifier (process I/O failure)",
     "std::io::stdio::_eprint": "eprintln! panics only when stderr is closed; process I/O failure",
     "std::thread::spawn": "thread::spawn panics only when the OS refuses to create a thread (resource exhaustion, not input-dependent)",
